@@ -677,6 +677,7 @@ class _AbsIO:
     (`log`, a symbolic-length list of entry indices), how many bytes in all (`nbytes`), and obligations about size prefixes."""
 
     prefixed = False
+    uleb_entries = False       # FunctionSection: an entry IS one unsigned LEB128 integer (a type index)
 
     def __init__(self, initial=b""):
         from pyvc.sym import SymList
@@ -693,6 +694,8 @@ class _AbsIO:
             self.nbytes = self.nbytes + leb.uleblen(x.value)
             if self.phase == "head":
                 self.head.append(x)
+            elif self.uleb_entries:
+                self.log.append(SymInt(x.value))
             elif self.pend is None:
                 self.pend = x
             else:
@@ -732,8 +735,9 @@ def _len3(x):
     return n if n is not None else leb.sym_len(x)
 
 
-@family("C19.frame.unbounded", props=["C19", "C07"], functions=[W + f"::{s}.WriteTo" for s, _, _, _ in _SECTIONS],
+@family("C19.frame.unbounded", props=["C19", "C07"], functions=[W + f"::{s}.WriteTo" for s, _, _, _ in _SECTIONS] + [W + "::FunctionSection.WriteTo"],
         assumptions=[SHIMS, "modular cut: WriteInteger is replaced by its contract (C19.leb.unsigned / C19.leb.write); its precondition is an obligation of the writer",
+                     "FunctionSection: entry i is the type index Z(i) in [0, 2^32), written as one uleb; the entry log then records the values written (log[i] = Z(i))",
                      "the number n >= 1 of entries is SYMBOLIC (no bound; n and the payload stay below 2^32); entry i writes / encodes to one opaque blob of Z(i) >= 0 bytes",
                      "entry loop cut mechanically (pyvc.loopcut) at the invariant Inv(k): the payload buffer holds uleb(n), then entries 0..k-1 in order (entry log: log[i] = i, proved for a fresh index), "
                      "each directly preceded by uleb(Z(i)) in the code section, T(k) bytes in all with T(0) = 0, T(k+1) = T(k) + Z(k) [+ uleblen(Z(k))]; no half-written prefix at an iteration boundary",
@@ -743,24 +747,25 @@ def frame_unbounded(R):
     preceded by uleb(|body|)) -- by induction over the entries (loop cut), not by enumerating entry counts."""
     from pyvc import loopcut
     from pyvc.sym import SymList, seq_view, All
-    for sname, add, sid, prefixed in _SECTIONS:
+    for sname, add, sid, prefixed in _SECTIONS + [("FunctionSection", "AddFunction", 3, False)]:
         cls = resolve(W + "::" + sname)
         FN = W + f"::{sname}.WriteTo"
         cutf = loopcut.cut(cls.WriteTo, 0)
+        ints = sname == "FunctionSection"          # entries are type indices I(k) in [0, 2^32), each written as one uleb
         probe = cls()
         lists = [k for k, v in vars(probe).items() if isinstance(v, list)]
         if len(lists) != 1:
             raise Missing(f"{sname}: cannot identify the entry list ({lists})")
         lname = lists[0]
-        AbsIO = type("_AbsIO_" + sname, (_AbsIO,), dict(prefixed=prefixed))
+        AbsIO = type("_AbsIO_" + sname, (_AbsIO,), dict(prefixed=prefixed, uleb_entries=ints))
         FakeIO = type("FakeIO", (), dict(BytesIO=AbsIO))
 
         def cut_ctx(stub, FakeIO=FakeIO):
             return patched(_mod(), bytes=sym_bytes, len=_len3, io=FakeIO, WriteInteger=stub)
 
-        def T_axioms(ctx, k, n, prefixed=prefixed):
+        def T_axioms(ctx, k, n, prefixed=prefixed, ints=ints):
             k = term(k)
-            step = _Z(k) + (leb.uleblen(_Z(k)) if prefixed else 0)
+            step = leb.uleblen(_Z(k)) if ints else _Z(k) + (leb.uleblen(_Z(k)) if prefixed else 0)
             ctx.assume(z3.And(_TS(z3.IntVal(0)) == 0, z3.Implies(k >= 0, z3.And(_Z(k) >= 0, _TS(k + 1) == _TS(k) + step))))
 
         def section(n, cls=cls, lname=lname):
@@ -768,14 +773,14 @@ def frame_unbounded(R):
             vars(sec)[lname] = _SymEntries(n)
             return sec
 
-        def havoc(ctx, n, k, AbsIO=AbsIO):
+        def havoc(ctx, n, k, AbsIO=AbsIO, ints=ints):
             c = AbsIO()
             c.phase = "entries"
             c.head = [leb.ULEB(n.t)]
             LOG = z3.Array("LOG", z3.IntSort(), z3.IntSort())
             c.log = SymList(LOG, k)
             c.nbytes = leb.uleblen(n.t) + _TS(term(k))
-            inv = All(0, k, lambda i: LOG[i] == i)
+            inv = All(0, k, (lambda i: LOG[i] == _Z(i)) if ints else (lambda i: LOG[i] == i))
             return c, inv
 
         names = {}
@@ -812,14 +817,20 @@ def frame_unbounded(R):
                     while v >= 128: v >>= 7; n += 1
                     return n
                 bad = None
-                for sizes in ([1] * {{n}}, [0, 130, 2], [200] * 130, [3], [20000, 1]):
+                for sizes in [[1] * {{n}}, [0, 130, 2], [200] * 130, [3], [20000, 1]] + ([[70000, 5, 2 ** 31 + 3, 2 ** 32 - 1]] if {{sname}} == 'FunctionSection' else []):
                     sec = getattr(W, {{sname}})()
-                    for n in sizes: getattr(sec, {{add}})(E(n))
+                    for n in sizes: getattr(sec, {{add}})(n if {{sname}} == 'FunctionSection' else E(n))
                     out = io.BytesIO(); sec.WriteTo(out); bs = out.getvalue()
                     size, p = udec(bs, 1); cnt, q = udec(bs, p)
-                    expected = (q - p) + sum(n + (ulen(n) if {{sname}} == 'CodeSection' else 0) for n in sizes)
+                    expected = (q - p) + sum((ulen(n) if {{sname}} == 'FunctionSection' else n + (ulen(n) if {{sname}} == 'CodeSection' else 0)) for n in sizes)
                     if bs[0] != getattr(W, {{sname}}).sectionId or size != len(bs) - p or cnt != len(sizes) or len(bs) - p != expected:
                         bad = (sizes[:6], len(sizes), 'size field', size, 'payload', len(bs) - p, 'expected', expected, 'count', cnt); break
+                    if {{sname}} == 'FunctionSection':
+                        pos = q
+                        for n in sizes:
+                            v, pos = udec(bs, pos)
+                            if v != n: bad = (sizes[:6], len(sizes), 'index', n, 'written as', v); break
+                        if bad: break
                     if {{sname}} == 'CodeSection':
                         pos = q
                         for n in sizes:
@@ -846,12 +857,12 @@ def frame_unbounded(R):
             sec, out, stub = section(n), _RecIO(), _LebCut()
             state = {"self": sec, "output": out, bname: c}
             with cut_ctx(stub):
-                kind, _, loc = cutf.step(cut_elem_=_KEntry(k.t), **state)
+                kind, _, loc = cutf.step(cut_elem_=SymInt(_Z(k.t)) if ints else _KEntry(k.t), **state)
             c2 = loc[bname]
             arr, ln = seq_view(c2.log)
             goals = [("preserve.completes-the-iteration", kind in ("next", "continue")),
                      ("preserve.same-buffer", c2 is c and not c.problems, "; ".join(map(str, c.problems))),
-                     ("preserve.one-more-entry-in-order", z3.And(ln == k.t + 1, All(0, k.t + 1, lambda i: arr[i] == i).at(j.t))),
+                     ("preserve.one-more-entry-in-order", z3.And(ln == k.t + 1, All(0, k.t + 1, (lambda i: arr[i] == _Z(i)) if ints else (lambda i: arr[i] == i)).at(j.t))),
                      ("preserve.no-half-written-prefix", c2.pend is None),
                      ("preserve.byte-count", c2.nbytes == leb.uleblen(n.t) + _TS(k.t + 1)),
                      ("preserve.nothing-written-to-the-output", not out.rec),
@@ -876,7 +887,7 @@ def frame_unbounded(R):
             return [("exit.id-size-payload", shape, f"written to the output: {[type(x).__name__ for x in rec]}"),
                     ("exit.id", bool(rec) and isinstance(rec[0], (bytes, bytearray)) and bytes(rec[0]) == bytes([sid])),
                     ("exit.size-is-payload-length", (rec[1].value == leb.uleblen(n.t) + _TS(n.t)) if shape else False),
-                    ("exit.payload-untouched", z3.And(ln == n.t, All(0, n.t, lambda i: arr[i] == i).at(j.t), z3.BoolVal(not c.problems and c.pend is None))),
+                    ("exit.payload-untouched", z3.And(ln == n.t, All(0, n.t, (lambda i: arr[i] == _Z(i)) if ints else (lambda i: arr[i] == i)).at(j.t), z3.BoolVal(not c.problems and c.pend is None))),
                     ("exit.leb-precondition", z3.And(*stub.requires))]
 
         verify(R, f"C19.frame.unbounded.{sname}", FN, run_exit, replay, label="loop-cut")
